@@ -29,6 +29,10 @@ func lalr1Cases(c *Ctx, prec bool) {
 			g = exprGram(c.Rng, cfg)
 		}
 		lg := g.Lalr()
+		if c.Rng.Intn(3) == 0 {
+			addMarkers(c.Rng, lg)
+			c.Count("with state markers")
+		}
 		if c.Rng.Intn(6) == 0 {
 			lg.ExpectSR = c.Rng.Intn(3)
 			lg.ExpectRR = c.Rng.Intn(2)
